@@ -8,6 +8,7 @@ mod derive;
 mod connid;
 mod keepalive;
 mod notify;
+mod pairs;
 mod proto;
 
 fn main() {
@@ -17,6 +18,7 @@ fn main() {
         "dialplan" => dialplan::main(&a),
         "cdial" => cdial::main(&a),
         "notify" => notify::main(&a),
+        "pairs" => pairs::main(&a),
         "keepalive" => keepalive::main(&a),
         "connid" => connid::main(&a),
         "derive" => derive::main(&a),
